@@ -54,11 +54,30 @@ RULE = ("seeded random cases. chain: explicit key sets over the pitch "
         "one pattern object (Pseq([Pdur(d, x), x]), Pn(Pdur(d, x), n), "
         "Ppar(x, Pdelta(t, x)), overlapping players, play/stop/play). "
         "Distinct = hash of the spec. "
-        "Restricted to inputs where the SuperCollider documentation and the "
-        "port's in-code notes agree (no fractional degrees, ctranspose only "
-        "with midinote/note sources, harmonic != 1 only without explicit freq, "
-        "gtranspose/root/note only with 12-step tunings, no event types other "
-        "than note, no arrayed values)")
+        "Kept out (audit 2026-09-26, each justified in AUDIT below): harmonic "
+        "!= 1 with an explicit freq, db with velocity without amp, arrayed "
+        "values, function values, negative durations, override keys "
+        "(send_gate, has_gate, msg_params, gate), unimplemented keys (latency, "
+        "lag, timing_offset, strum), event types other than note and rest, "
+        "direct play of a rest, articulate Pmono, Pmono below Pchain, timing "
+        "keys in the left operand of a Pchain over Pdelta/Ppar, quant != 0")
+AUDIT = """accommodation | justified by | status
+fractional degrees, ctranspose with degree, gtranspose/root/note with any
+  tuning, n-step tunings of ratio != 2, bare modifiers, Pmono rests (also
+  leading), zero dur, off-grid Pdur, type 'rest', delta None, dur inf,
+  undescribed instrument, replay with any pitch keys / variant:
+  formerly kept out - now generated (documented chains / Rest help / Event help)
+harmonic with explicit freq | statement silent, two documented readings | kept out
+db + velocity without amp   | no documented precedence                  | kept out
+controls the event does not set explicitly: may be sent with the default
+  chain value or not at all | 'that the event defines' is ambiguous      | tolerated
+release of a Pmono cut by Pdur: only 'not before the cut' | statement
+  silent about Pmono release; SuperCollider releases at the cut          | tolerated
+simultaneous events: order free | statement silent                      | tolerated
+node ids fresh per score, not per process | a reset starts a new server  | tolerated
+stopped player: last wake-up bounded by its next element | NRT leaves the
+  pending wake-up of a stopped routine in the queue (harmless)          | bounded
+"""
 ASSUMPTIONS = [
     "vf/model_events.py is the meaning of 'documented chains' and of the "
     "combinators (SuperCollider Event / Pattern Guide 07 / Scale / Ppar / "
@@ -80,6 +99,9 @@ MIN_COUNTERS = {
               'tl_total_duration_checked': 800, 'tl_with_ppar': 300,
               'tl_with_pdur_clipping': 40, 'tl_with_pdelta': 200,
               'tl_with_pchain': 200, 'tl_mono_set_checked': 200,
+              'tl_special_type-rest': 40, 'tl_special_delta-none': 20,
+              'tl_special_dur-inf': 20, 'tl_total_duration_bounded': 40,
+              'play_programs_with_undescribed_instrument': 100,
               'tl_reuse_cases_ok': 500,
               'tl_repeated_embedding_s_new_checked': 2000,
               'tl_reuse_cut-then-full': 40, 'tl_reuse_players-overlap': 40,
@@ -94,6 +116,9 @@ MIN_COUNTERS = {
                  'tl_total_duration_checked': 15000, 'tl_with_ppar': 5000,
                  'tl_with_pdur_clipping': 1000, 'tl_with_pdelta': 3000,
                  'tl_with_pchain': 3000, 'tl_mono_set_checked': 2000,
+                 'tl_special_type-rest': 800, 'tl_special_delta-none': 400,
+                 'tl_special_dur-inf': 400, 'tl_total_duration_bounded': 800,
+                 'play_programs_with_undescribed_instrument': 2000,
                  'tl_reuse_cases_ok': 10000,
                  'tl_repeated_embedding_s_new_checked': 40000,
                  'tl_reuse_cut-then-full': 800, 'tl_reuse_players-overlap': 800,
@@ -135,7 +160,7 @@ def raise_key(mon, e):
 
 def exc_key(e):
     """Mechanism part of a key for an exception raised inside sc3."""
-    msg = str(e)
+    msg = '' if isinstance(e, KeyError) else str(e)   # KeyError: a data value
     sites = tb_sites(e)
     site = '.'.join((sites[-1][0].replace('.py', ''), sites[-1][1])) \
         if sites else 'outside-sc3'
@@ -229,7 +254,9 @@ def run_chain(spec, acc):
             if not run.close(g, float(exp)):
                 if pitch:
                     pitch_failed = True
-                    if res.pitch_source == 'default':
+                    if run._pitch_class(res, ev):
+                        k = run.pitch_key('key-chain-differs', key, res, ev)
+                    elif res.pitch_source == 'default':
                         k = ('C14/key-chain-differs/pitch-modifiers-ignored-'
                              'without-degree-or-note-key')
                     else:
@@ -319,7 +346,8 @@ def run_play(spec, acc):
     for i in iter_cases(spec):
         rng = case_rng(spec['seed'], 'C14', 'play', i)
         prog = gen.play_program(rng, insts, tags)
-        gates = {info[s['event']['instrument']]['gate'] for s in prog['steps']}
+        gates = {(info.get(s['event']['instrument']) or {}).get('gate')
+                 for s in prog['steps']}
         acc.case(h64(repr(prog)), nontrivial=len(gates) == 2
                  or prog['latency'] > 0 or prog['where'] != 'main'
                  or prog.get('history', False))
@@ -329,7 +357,13 @@ def run_play(spec, acc):
         acc.count('play_latency_nonzero' if prog['latency'] else
                   'play_latency_zero')
         cap, times = run.run_play_program(prog, groups)
-        if _report_raises(acc, 'play', cap, i, {'program': prog}):
+        nodesc = any(st['event'].get('instrument') == gen.NODESC
+                     for st in prog['steps'])
+        if nodesc:
+            acc.count('play_programs_with_undescribed_instrument')
+        mon = ('play-undescribed-instrument' if nodesc else
+               'play-history' if prog.get('history') else 'play')
+        if _report_raises(acc, mon, cap, i, {'program': prog}):
             continue
         ex = run.expect_program(prog, times, info, groups)
         bad = run.compare(ex, cap, acc, 'play', prog['offgrid'])
@@ -372,7 +406,9 @@ def run_timeline(spec, acc):
         tl = me.timeline(pat)
         has_rest = any(e.rest and e.kind != 'silent' for _, e in tl.items)
         acc.case(h64(repr(case)), nontrivial=len(kinds) > 1 or has_rest
-                 or 'form' in case)
+                 or 'form' in case or 'special' in case)
+        if 'special' in case:
+            acc.count(f"tl_special_{case['special']}")
         cap, start = run.run_timeline_case(case)
         case['expanded'] = pat
         if _report_raises(acc, 'timeline', cap, i, {'timeline_case': case}):
@@ -380,11 +416,30 @@ def run_timeline(spec, acc):
         ex = run.expect_timeline(case, start, info, groups)
         bad = run.compare(ex, cap, acc, 'tl', case['offgrid'])
         del case['expanded']
+        # differences that already carry their own mechanism key (input
+        # classes of the pitch chain) are reported as they are; the rest goes
+        # through the diagnoses below
+        for k, detail in bad:
+            if k.startswith('C14/'):
+                acc.violation(k, dict(detail, case=i, timeline_case=case))
+        full, bad = bad, [(k, d) for k, d in bad if not k.startswith('C14/')]
+        # diagnosis: a Pmono whose first events are rests
+        if bad and 'pmono-leading-rest' in tl.flags and all(
+                k.startswith(('missing-s_new/mono_on', 'missing-n_set/mono',
+                              'unexpected-traffic/n_set', 'mono-release',
+                              'unexpected-traffic/n_free'))
+                for k, _ in bad):
+            acc.violation('C14/timeline/pmono-leading-rest-node-never-created',
+                          {'case': i, 'differences': sorted({k for k, _ in bad}),
+                           'first': bad[0][1], 'timeline_case': case})
+            continue
+        if 'pmono-leading-rest' in tl.flags and not bad:
+            acc.count('tl_pmono_leading_rest_ok')
         if 'form' in case:
             # the same pattern object embedded / played more than once: one
-            # mechanism class per kind of traffic difference
+            # mechanism class per kind of re-use history
             acc.count(f"tl_reuse_{case['form']}")
-            if not bad:
+            if not full:
                 acc.count('tl_reuse_cases_ok')
             if bad:
                 cls = {'cut-then-full': 'embedded-again-after-a-cut',
@@ -400,6 +455,8 @@ def run_timeline(spec, acc):
                      'differences': sorted({k for k, _ in bad}),
                      'first': bad[0][1], 'timeline_case': case})
             continue
+        if 'special' in case and not full:
+            acc.count(f"tl_special_ok_{case['special']}")
         case['expanded'] = pat
         # diagnosis: the player stopped at a rest whose delta is a Rest object
         rv = _rest_valued_delta_onsets(case, tl)
@@ -426,7 +483,7 @@ def run_timeline(spec, acc):
         for k, detail in bad:
             acc.violation(k if k.startswith('C14/') else f'C14/timeline/{k}',
                           dict(detail, case=i, timeline_case=case))
-        if not bad:
+        if not full:
             acc.count('tl_rests_silent', ex.rests)
             for k in kinds:
                 if k == 'pdur':
